@@ -125,3 +125,17 @@ Theorem safe64_sound (t : expr 53 1024) : safe_q 53 1024 p64 m64 lo64 hi64 t = t
 Proof. apply safe_q_sound; [exact lo64_ok|exact hi64_ok]. Qed.
 Theorem safe32_sound (t : expr 24 128) : safe_q 24 128 p32 m32 lo32 hi32 t = true -> Safe 24 128 p32 m32 t.
 Proof. apply safe_q_sound; [exact lo32_ok|exact hi32_ok]. Qed.
+
+(* the normal-range premise of one addition / subtraction, decided by exact rational arithmetic (binary64) *)
+Lemma normal64_add (x y : binary_float 53 1024) : is_finite x = true -> is_finite y = true ->
+  in_range lo64 hi64 (fq 53 1024 x + fq 53 1024 y) = true -> normal 53 1024 (B2R x + B2R y).
+Proof.
+  intros Fx Fy H. apply (in_range_normal 53 1024 p64 m64 lo64 hi64 lo64_ok hi64_ok (fq 53 1024 x + fq 53 1024 y)); [|exact H].
+  rewrite Q2R_plus, !fq_B2R by assumption. reflexivity.
+Qed.
+Lemma normal64_sub (x y : binary_float 53 1024) : is_finite x = true -> is_finite y = true ->
+  in_range lo64 hi64 (fq 53 1024 x - fq 53 1024 y) = true -> normal 53 1024 (B2R x - B2R y).
+Proof.
+  intros Fx Fy H. apply (in_range_normal 53 1024 p64 m64 lo64 hi64 lo64_ok hi64_ok (fq 53 1024 x - fq 53 1024 y)); [|exact H].
+  rewrite Q2R_minus, !fq_B2R by assumption. reflexivity.
+Qed.
